@@ -296,7 +296,7 @@ class TemplateManipulator:
 		for i, key in enumerate(keys):
 			found = False
 			for j in range(i + 1, len(keys)):
-				if keys[j].startswith(key):
+				if keys[j].startswith(f'{key}.'):
 					found = True
 					break
 
@@ -340,7 +340,7 @@ class TemplateManipulator:
 		schema_begin_path = DSN.left(schema_path, 2)
 		schema_elems = schema_props[schema_path]
 		for actual_path, actual_elems in actual_props.items():
-			if not actual_path.startswith(schema_begin_path):
+			if actual_path != schema_begin_path and not actual_path.startswith(f'{schema_begin_path}.'):
 				continue
 
 			diff = DSN.elem_counts(actual_elems) - DSN.elem_counts(schema_elems)
